@@ -43,8 +43,11 @@ Fails(t) ==
          \* into an inconclusive run)
          If({ t.units[k] : k \in 1..Len(t.units) } = Units, "spec-unit-alphabet-is-not-the-enum")
          \cup If(t.rpanic = "", "configured-model-unreadable")
-         \cup If(t.post.cons = t.pre.cons, "consumables-where-configured")
-         \cup If(t.rpanic # "" \/ t.post.inv = t.pre.inv, "stock-where-configured")
+         \* first read (ListConsumables / ListInventory = post, the PullConsumables / PullInventory seeds = seed)
+         \* against the option sequence folded by ConfState
+         \cup If(t.post.cons = ConfState(t.opts).cons, "consumables-where-configured")
+         \cup If(t.rpanic # "" \/ t.post.inv = ConfState(t.opts).inv, "stock-where-configured")
+         \cup If(t.rpanic # "" \/ t.seed = t.post, "pull-seed-is-first-read")
   ELSE IF t.rpanic # "" THEN {"state-unreadable"}
   ELSE CASE t.op = "Dispense" -> DispenseFails(t)
          [] t.op = "Convert" -> ConvertFails(t)
